@@ -2246,6 +2246,20 @@ send_evical_vevent(int whither, echs_const_evstrm_t s)
 		return;
 	}
 	send_ev(whither, this->ev[this->i], 0U);
+	/* more than one instant pending means we were a list of RDATEs,
+	 * a reader takes those for the occurrences, so write them all,
+	 * a handful per line, the reader's lines are bounded */
+	for (size_t j = this->i; this->i + 1U < this->nev && j < this->nev;) {
+		fdwrite("RDATE:", strlenof("RDATE:"));
+		for (const size_t eol = j + 32U; j < this->nev && j < eol; j++) {
+			char stmp[32U];
+			size_t z;
+
+			z = dt_strf_ical(stmp, sizeof(stmp), this->ev[j].from);
+			stmp[z++] = j + 1U < this->nev && j + 1U < eol ? ',' : '\n';
+			fdwrite(stmp, z);
+		}
+	}
 	return;
 }
 
